@@ -10,14 +10,14 @@ RULE = ("cases: spec without soft constraints (fixed grammars with computed repe
         "fitness (exact float), verdict, failing parts as multiset of (path, symbol, cause). Non-trivial: >= 1 compared evaluation served from a cache; "
         "distinct by (spec, seed).")
 TIMEOUTS = {"quick": (60, 300), "thorough": (240, 2400)}
-MIN = {"quick": {"cases": 80, "nontrivial": 50, "observed": {"shadow_compared": 6000, "shadow_compared_cache_hit": 800, "targeted_histories": 300}},
+MIN = {"quick": {"cases": 60, "nontrivial": 30, "observed": {"shadow_compared": 3000, "shadow_compared_cache_hit": 150, "targeted_histories": 150}},
        "thorough": {"cases": 1500, "nontrivial": 800, "observed": {"shadow_compared": 300000}}}
 ASSUMPTIONS = ["suggestions (randomised repairs) are not compared", "specs with soft constraints are excluded (their scores depend on history by design)"]
 
 
 def cases(tier, seed):
     rng = random.Random(11000 + seed)
-    n = 120 if tier == "quick" else 2400
+    n = 90 if tier == "quick" else 2400
     names = ["kvc", "msg", "two"]
     out = [{"key": f"gen-{names[i % 3]}-{i}", "kind": "gen", "g": names[i % 3], "seed": rng.randrange(1 << 30)} for i in range(n)]
     from vf.gen import harvest
